@@ -116,6 +116,10 @@ def all_recognised(spec):
 def gen_via(r):
     via = r.weighted([(3, 'dict'), (3, 'file'), (2, 'cycled')])
     d = {'via': via}
+    if via == 'dict' and r.chance(0.5):
+        # the caller keeps one dictionary object per constraint set and
+        # passes that same object every time
+        d['held'] = True
     if via != 'dict' and r.chance(0.7):
         d['tdda_name'] = r.pick(['constraints.tdda', 'a.tdda', 'b.tdda'])
     if via == 'cycled':
@@ -236,6 +240,9 @@ def gen_c06(r, tier):
                     'cs_inline': cs, 'via': r.pick(['dict', 'file']),
                     'opts': opts,
                     'type_checking': r.pick([None, None, 'strict'])})
+        if ops[-1]['via'] == 'file' and r.chance(0.6):
+            # the user keeps rewriting one constraints file
+            ops[-1]['tdda_name'] = r.pick(['constraints.tdda', 'c.tdda'])
     return {'config': {'frames': [spec]}, 'ops': ops}
 
 
@@ -430,6 +437,12 @@ def materialise(ctx, op, rec):
     from tdda.constraints.base import DatasetConstraints
     via = op.get('via', 'dict')
     if via == 'dict':
+        if op.get('held'):
+            if 'held' not in rec:
+                rec['held'] = cs_dict(rec)
+            else:
+                ctx.stats['probes']['same_dict_object_passed_again'] += 1
+            return rec['held']
         return cs_dict(rec)
     # a few shared file names: real users keep rewriting one constraints
     # file, so a path is often loaded, rewritten and loaded again
@@ -884,6 +897,12 @@ def check_flags(ctx, op, rec, spec, before_df, kw, det, failing, opt_tag,
             ctx.stats['abstain']['flag_column_not_found'] += 1
             any_abstain = True
             continue
+        if kind not in d['fields'].get(field, {}):
+            violation(ctx, op, 'failing-constraint-is-in-the-set',
+                      op.get('via', 'dict'), 'detection reports %s:%s as failed, but the '
+                      'constraint set given has no such constraint (fields '
+                      '%r)' % (field, kind, sorted(d['fields'])))
+            return
         value, precision = constraint_params(d, field, kind)
         ser = before_df[field]
         ctype = d['fields'][field].get('type')
@@ -1195,6 +1214,17 @@ def op_verdicts(ctx, op):
         srcs = (('dict', lambda: cs_dict(rec)),
                 ('path', lambda: rec['path']),
                 ('reloaded', lambda: rec['loaded'].to_dict()))
+    def dict_text(d):
+        from tdda.constraints.base import DatasetConstraints
+        c = DatasetConstraints()
+        c.initialize_from_dict(d)
+        return fields_text(c.to_json())
+    held_text0 = None
+    if op.get('reuse_dict'):
+        try:
+            held_text0 = dict_text(copy.deepcopy(held))
+        except Exception:
+            held_text0 = None
     for name, mk in srcs:
         try:
             v = verify_df(df.copy(deep=True), mk(), **kw)
@@ -1210,6 +1240,24 @@ def op_verdicts(ctx, op):
     if ctx.prop != 'C09':
         return
     ctx.stats['checks']['verdict_triples'] += 1
+    if held_text0 is not None:
+        # the caller's dictionary still says what it said before it was
+        # used for verification
+        try:
+            t1 = dict_text(held)
+        except WatchdogTimeout:
+            raise
+        except Exception as e:
+            t1 = 'exc:' + exc_tag(e)
+        ctx.stats['checks']['dict_text_after_verification'] += 1
+        if t1 != held_text0:
+            violation(ctx, op, 'same-text',
+                      'dict-after-verification/%s' % content_tag(
+                          cs_dict(rec)),
+                      'the dictionary passed to verify_df serialises '
+                      'differently afterwards:\nbefore %s\nafter  %s'
+                      % (held_text0[:1200], t1[:1200]))
+            return
     base = results[0]
     for other in results[1:]:
         if other[1:] != base[1:]:
